@@ -49,6 +49,18 @@ def toks : Ex → List PToken
   | brC pre o wsA e ws1 k wsB c => pre ++ (o :: (wsA ++ (e.toks ++ (ws1 ++ (k :: (wsB ++ [c]))))))
   | lead op ws x => op :: (ws ++ x.toks)
 
+/-- number of nodes the parser pushes and unlinks again: the trailing blank lines before a `}` -/
+def garb : Ex → Nat
+  | atom _ _ => 0
+  | br _ _ _ e _ _ => e.garb
+  | brT _ _ _ e _ _ _ _ => e.garb + 1
+  | bin e _ _ _ x => e.garb + x.garb
+  | suf e _ => e.garb
+  | lst e _ x => e.garb + x.garb
+  | sep e _ _ _ x => e.garb + x.garb
+  | brC _ _ _ e _ _ _ _ => e.garb
+  | lead _ _ x => x.garb
+
 def isOpd : Ex → Bool
   | atom .. => true
   | br .. => true
@@ -144,10 +156,10 @@ theorem opd_head_class {t : PToken} (h : isPrefixTok t = true ∨ isAtom10 t = t
 
 /-- the head token of an operand -/
 theorem opd_head {F : Fl} {inG : Bool} : ∀ x : Ex, x.ok F inG = true → x.isOpd = true →
-    ∃ t r, x.toks = t :: r ∧ (((isPrefixTok t = true ∨ isOpenTok t = true) ∧ r ≠ []) ∨ (isAtom10 t = true ∧ r = []))
+    ∃ t r, x.toks = t :: r ∧ (((isPrefixTok t = true ∨ isOpenTok t = true) ∧ r ≠ []) ∨ (isAtom10 t = true ∧ r = [] ∧ x.garb = 0))
   | .atom [] a, h, _ => by
     simp only [Ex.ok, Bool.and_eq_true, List.all_eq_true] at h
-    exact ⟨a, [], rfl, Or.inr ⟨h.2, rfl⟩⟩
+    exact ⟨a, [], rfl, Or.inr ⟨h.2, rfl, rfl⟩⟩
   | .atom (p :: ps) a, h, _ => by
     simp only [Ex.ok, Bool.and_eq_true, List.all_eq_true] at h
     exact ⟨p, ps ++ [a], rfl, Or.inl ⟨Or.inl (h.1 p (List.mem_cons_self ..)), by simp⟩⟩
@@ -176,17 +188,18 @@ theorem opd_head {F : Fl} {inG : Bool} : ∀ x : Ex, x.ok F inG = true → x.isO
   | .lead _ _ _, _, hc => by simp [Ex.isOpd] at hc
 
 /-- an operand in list mode -/
-theorem listOpd_of_ex {F : Fl} {inG : Bool} (x : Ex) (h : x.ok F inG = true) (ho : x.isOpd = true) (hx : OpdOK x.toks) :
-    ListOpdOK x.toks := by
+theorem listOpd_of_ex {F : Fl} {inG : Bool} (x : Ex) (h : x.ok F inG = true) (ho : x.isOpd = true)
+    (hx : OpdOK x.garb x.toks) : ListOpdOK x.garb x.toks := by
   obtain ⟨t, r, htr, hcl⟩ := opd_head x h ho
   rw [htr] at hx ⊢
   rcases hcl with ⟨hcl, hr⟩ | ⟨hcl, hr⟩
   · exact listOpd_po hx hr hcl
-  · subst hr; exact listOpd_value t hcl
+  · obtain ⟨hr, hg⟩ := hr
+    subst hr; rw [hg]; exact listOpd_value t hcl
 
 /-- **the induction over the expression syntax** -/
 theorem ex_ok {F : Fl} : ∀ (e : Ex) (inG : Bool), e.ok F inG = true →
-    ExprOK inG e.toks e.endsSuffix ∧ (e.isOpd = true → OpdOK e.toks)
+    ExprOK e.garb inG e.toks e.endsSuffix ∧ (e.isOpd = true → OpdOK e.garb e.toks)
   | .atom pre a, _, h => by
     simp only [Ex.ok, Bool.and_eq_true, List.all_eq_true] at h
     have := opd_atom pre a h.1 h.2
@@ -425,7 +438,7 @@ theorem parse_ex {F : Fl} (e : Ex) (hok : e.ok F false = true) (hnum : NumberedF
     ∃ r t, parse e.toks = .ok r ∧ toTree r = some t ∧ refParse Table.gen e.toks = .ok (toRG (dfOf r.nodes) t) := by
   have hne := e.toks_ne
   obtain ⟨htrim, _, _⟩ := ex_trim e hok
-  obtain ⟨st1, E, re, cb, hloop, hinv, hgs, hcg, _, _, _, href⟩ :=
+  obtain ⟨st1, E, re, cb, hloop, hinv, hgs, hcg, _, _, _, _, href⟩ :=
     (ex_ok e false hok).1 PState.init none none 0 openB_init (.top rfl rfl) (by intro i nd h; simp [PState.init] at h) rfl
       rfl (Or.inl rfl) 0 hnum []
   simp only [List.append_nil] at hloop
